@@ -150,13 +150,32 @@ pub fn generate(cx: &super::GenCtx) -> Vec<Plan> {
             0..=4 => {
                 s.push(Action::send(if rng.chance(1, 4) { "go" } else { "go infinite" }));
                 s.push(Action::DelaySteps(*rng.pick(DELAYS)));
-                if rng.chance(1, 4) {
-                    s.push(Action::send("isready"));
-                }
-                if rng.chance(1, 5) {
-                    // position while the search runs: must affect the NEXT search only
-                    spec = gen::random_posspec(&mut rng);
-                    s.push(Action::send(spec.cmd.clone()));
+                // other commands while the search runs: none of them may cost the stop its effect
+                for _ in 0..*rng.pick(&[0u64, 0, 0, 1, 1, 2]) {
+                    match rng.below(6) {
+                        0 | 1 => s.push(Action::send("isready")),
+                        2 => {
+                            // position while the search runs: must affect the NEXT search only
+                            spec = gen::random_posspec(&mut rng);
+                            s.push(Action::send(spec.cmd.clone()));
+                        }
+                        3 => {
+                            // a go during a search is refused - and must leave the running
+                            // search stoppable
+                            let l = small_go(&mut rng, spec.dense);
+                            s.push(Action::send(if rng.chance(1, 2) { "go infinite".to_string() } else { l.line(Some(&mut rng)) }));
+                        }
+                        4 => {
+                            // ucinewgame resets the position, not the search bookkeeping
+                            s.push(Action::send("ucinewgame"));
+                            spec = gen::PosSpec {
+                                cmd: "position startpos".into(),
+                                game: vec![super::super::refmodel::Pos::start()],
+                                dense: true,
+                            };
+                        }
+                        _ => s.push(Action::send("setoption name Hash value 1")),
+                    }
                     s.push(Action::DelaySteps(*rng.pick(DELAYS)));
                 }
                 s.push(Action::send("stop"));
